@@ -277,7 +277,7 @@ def churn(sink, seed, n_churn, tag, base):
 
 def sort_case(sink, seed, idx):
     rng = gen.case_rng(seed, 'c18sort', idx)
-    style = gen.KEY_STYLES[idx % len(gen.KEY_STYLES)] if idx % 3 else ('nan_mixed', 'fs_mixed', 'tie_mixed')[(idx // 3) % 3]
+    style = gen.KEY_STYLES[(idx // 3) % len(gen.KEY_STYLES)] if idx % 3 else ('nan_mixed', 'fs_mixed', 'tie_mixed')[(idx // 3) % 3]
     n = rng.choice([0, 1, 2, 3, 5, 8, 13, 40, 70]) if idx % 3 else rng.randrange(4, 14)
     keys = gen.gen_keys(rng, n, style)
     if rng.random() < 0.3:
@@ -306,6 +306,7 @@ def sort_case(sink, seed, idx):
     sink.check(same_(got2, want), f'sort-twin/treespec_dict/stage{stage}', 'treespec_dict orders keys like total_order_sorted', ident, lambda: (got2, want))
     sink.check(same_(got3, want), f'sort-twin/one_level/stage{stage}', 'tree_flatten_one_level orders keys like total_order_sorted', ident, lambda: (got3, want))
     sink.count(f'sort-lists:stage{stage}')
+    sink.count(f'sort-style:{style}')
     types = {type(k) for k in keys}
     sink.case(harness.fp('sort', repr(keys)), len(keys) >= 3 and len(types) >= 2, ident if idx % 300 == 0 else None)
 
@@ -460,5 +461,7 @@ def finalize(sink, tier, seed):
     sink.require('address-reuses-with-different-answer', 10)
     sink.require('sort-lists:stage2')
     sink.require('sort-lists:stage3')
+    for st in gen.KEY_STYLES:
+        sink.require(f'sort-style:{st}', 5)
     sink.require('one-level-nodes', 500)
     sink.require('hostile-namedtuple-rebuilds')
